@@ -5,6 +5,12 @@ Streams:
   corpus   corpus/C10/*.json first (the pLSCF ordmin >= 2 call repaired by 799da21, hand-made tie-breaking tables);
   A        gen.SC_apply on random option tables (dyadic values: exact in float and in Q) vs the model, every column
            range, tolerances on both sides of each margin, exact ties, duplicates, NaN patterns, malformed inputs;
+  forms    in streams A, A-tall and B* every input is presented in a randomly chosen FORM: tables / records read-only
+           (setflags(write=False)); integer options as int, np.int64, np.int32, element of np.arange, 0-d array; float options as
+           float, np.float64, 0-d array; booleans as bool, 0/1, np.bool_; tables as float32/complex64 when exactly representable
+           (judged by the text at 1e-5), records as float32 or integer-valued int32/int64.  All forms of one value must give
+           the labels the model / text says; an exception is a failing input.
+  A-int    NaN-free integer-valued frequency and shape tables stored as int32 / int64 against their float64 image;
   A-tall   gen.SC_apply on tables of 1023 / 1024 / 1025 / 1230 / 2100 / 3000 rows x 3-6 columns whose matching previous
            poles sit in rows beyond 1024 and 2048 (decoys in low rows); generated from a recipe, judged by the NumPy text only;
   B        result.Lab of SSIcov / SSIdat / pLSCF and the _MS variants vs the model applied to their own result tables
@@ -106,8 +112,14 @@ def text_mac(p, q):
     return float(num / den)
 
 
+REL_NOW = [REL]  # margin in force inside text_labels (widened to REL_NARROW for float32 / complex64 inputs)
+REL_NARROW = 1e-5
+
+
 def near(a, b, scale):
-    return a != b and abs(a - b) <= REL * scale
+    if REL_NOW[0] > REL:  # narrower arithmetic: an exact tie of the float64 image is not a tie there, so it is not judged either
+        return abs(a - b) <= REL_NOW[0] * scale
+    return a != b and abs(a - b) <= REL_NOW[0] * scale
 
 
 def text_cell(Fn, Xi, Phi, i, o, efn, exi, ephi):
@@ -141,7 +153,7 @@ def text_cell(Fn, Xi, Phi, i, o, efn, exi, ephi):
         if m != m:
             tests.append((True, False))
         else:
-            tests.append((abs(1 - m - ephi) > REL, 1 - m < ephi))
+            tests.append((abs(1 - m - ephi) > REL_NOW[0], 1 - m < ephi))
     if any(dec and not ok for dec, ok in tests):
         return 0, "criteria"
     if any(not dec for dec, ok in tests):
@@ -149,8 +161,16 @@ def text_cell(Fn, Xi, Phi, i, o, efn, exi, ephi):
     return 1, "stable"
 
 
-def text_labels(Fn, Xi, Phi, in_range, efn, exi, ephi):
+def text_labels(Fn, Xi, Phi, in_range, efn, exi, ephi, rel=REL):
     """in_range(o) : the ORDER held by column o lies in [ordmin, ordmax]; column 0 holds the first order."""
+    REL_NOW[0] = rel
+    try:
+        return _text_labels(Fn, Xi, Phi, in_range, efn, exi, ephi)
+    finally:
+        REL_NOW[0] = REL
+
+
+def _text_labels(Fn, Xi, Phi, in_range, efn, exi, ephi):
     R, C = Fn.shape
     exp = np.zeros((R, C), dtype=int)
     why = {}
@@ -465,9 +485,63 @@ def nan_equal(a, b):
     return a.shape == b.shape and a.dtype == b.dtype and bool(np.all((a == b) | ((a != a) & (b != b))))
 
 
-def call_sc(gen, Fn, Xi, Phi, c0, c1, tols):
+# ---------------------------------------------------------------------------------------------------------------
+# forms in which one and the same input can be handed over (established on the unchanged tree: all of them are accepted by
+# gen.SC_apply and by the six classes and give bit-identical results, except that narrower storage types compute narrower)
+INT_FORMS = ("int", "np.int64", "np.int32", "arange", "0-d")
+FLOAT_FORMS = ("float", "np.float64", "0-d")
+BOOL_FORMS = ("bool", "int", "np.bool_")
+
+
+def as_int(v, form):
+    v = int(v)
+    return {"int": lambda: v, "np.int64": lambda: np.int64(v), "np.int32": lambda: np.int32(v), "arange": lambda: np.arange(v + 1)[v],
+            "0-d": lambda: np.array(v)}[form]()
+
+
+def as_float(v, form):
+    if isinstance(v, (int, np.integer)) and not isinstance(v, (bool, np.bool_)) and form == "float":
+        return v  # an int given for a float option (e.g. tolerance 0) stays what it is
+    return {"float": lambda: float(v), "np.float64": lambda: np.float64(v), "0-d": lambda: np.array(float(v))}[form]()
+
+
+def as_bool(v, form):
+    return {"bool": lambda: bool(v), "int": lambda: int(bool(v)), "np.bool_": lambda: np.bool_(bool(v))}[form]()
+
+
+def pick_forms(rng, plain=False):
+    if plain:
+        return dict(readonly=False, ints="int", floats="float", bools="bool", dtype="float64")
+    return dict(readonly=rng.random() < 0.45, ints=rng.choice(INT_FORMS), floats=rng.choice(FLOAT_FORMS), bools=rng.choice(BOOL_FORMS),
+                dtype=rng.choice(["float64"] * 5 + ["float32"]))
+
+
+def exact_in(a, dt):
+    a = np.asarray(a)
+    with np.errstate(all="ignore"):
+        b = a.astype(dt).astype(a.dtype)
+    return bool(np.all((a == b) | (a != a)))
+
+
+def present_tables(Fn, Xi, Phi, forms):
+    """Fresh copies of the three tables in the storage type and with the write flag the forms ask for; the narrow type is used only
+    when every value is exactly representable in it (so the float64 image denotes the same table)."""
+    a0, a1, a2 = np.array(Fn), np.array(Xi), np.array(Phi)
+    narrow = False
+    if forms.get("dtype") == "float32":
+        pdt = np.complex64 if np.iscomplexobj(a2) else np.float32
+        if exact_in(a0, np.float32) and exact_in(a1, np.float32) and exact_in(a2, pdt):
+            a0, a1, a2, narrow = a0.astype(np.float32), a1.astype(np.float32), a2.astype(pdt), True
+    if forms.get("readonly"):
+        for a in (a0, a1, a2):
+            a.setflags(write=False)
+    return a0, a1, a2, narrow
+
+
+def call_sc(gen, Fn, Xi, Phi, c0, c1, tols, forms=None):
+    ints, floats = (forms or {}).get("ints", "int"), (forms or {}).get("floats", "float")
     try:
-        return np.asarray(gen.SC_apply(Fn, Xi, Phi, c0, c1, 1, *tols)), None
+        return np.asarray(gen.SC_apply(Fn, Xi, Phi, as_int(c0, ints), as_int(c1, ints), as_int(1, ints), *[as_float(t, floats) for t in tols])), None
     except Exception as e:  # noqa: BLE001
         return None, type(e).__name__
 
@@ -543,7 +617,10 @@ def tall_case(ctx, gen, recipe, label):
                 note="table = props/C10.py gen_tall(seed, R, C, L)")
     ctx.hist("stream", "A-tall")
     ctx.hist("tall-rows", R)
-    Lab, err = call_sc(gen, Fn.copy(), Xi.copy(), Phi.copy(), c0, c1, tols)
+    forms = recipe.get("forms") or dict(readonly=bool(seed % 2), ints=INT_FORMS[seed % len(INT_FORMS)], floats=FLOAT_FORMS[seed % len(FLOAT_FORMS)])
+    case["forms"] = forms
+    a0, a1, a2, _ = present_tables(Fn, Xi, Phi, dict(forms, dtype="float64"))
+    Lab, err = call_sc(gen, a0, a1, a2, c0, c1, tols, forms)
     inr = (lambda o: c0 <= o <= c1)
     exp, why = text_labels(Fn, Xi, Phi, inr, *tols)
     far = sum(1 for (i, o, k) in matches if k >= 1024 and exp[i, o] == 1)
@@ -554,7 +631,7 @@ def tall_case(ctx, gen, recipe, label):
                  % (label, int((exp == 1).sum()), int(recipe["expected_stable"]), far))
     ctx.hist("tall-matches", "stable pole whose neighbour sits in a row >= 1024: %s" % ("yes" if far else "no"))
     if Lab is None:
-        ctx.fail("oracle", "gen.SC_apply raised %s on a tall table (%d rows)" % (err, R), case, key="C10:SC_apply:raised-%s" % err)
+        ctx.fail("oracle", "gen.SC_apply raised %s on a tall table (%d rows; input forms %s)" % (err, R, forms), case, key="C10:SC_apply:raised-%s" % err)
         return
     if Lab.shape != Fn.shape or not np.isin(Lab, (0, 1)).all():
         ctx.fail("oracle", "gen.SC_apply: label table of a tall table has shape %s / values outside 0,1" % (Lab.shape,), case, key="C10:SC_apply:shape")
@@ -625,45 +702,101 @@ def pick_sc(rng, is_p):
     return dict(err_fn=vals[0], err_xi=vals[1], err_phi=vals[2])
 
 
-def run_class(kind, data, fs, params):
-    """kind in SSIcov SSIdat pLSCF SSIcov_MS SSIdat_MS pLSCF_MS ; returns result object"""
+LAST_RUN = {"untouched": True}
+
+
+def run_class(kind, data, fs, params, readonly=False, dtype=float):
+    """kind in SSIcov SSIdat pLSCF SSIcov_MS SSIdat_MS pLSCF_MS ; returns result object.  The record(s) are handed over as fresh
+    arrays of the given storage type, read-only when asked; afterwards they must still hold the same values."""
     from pyoma2 import algorithms as A
     from pyoma2.setup import MultiSetup_PreGER, SingleSetup
+
+    def present(d):
+        a = np.array(d, dtype=dtype)
+        if readonly:
+            a.setflags(write=False)
+        return a
 
     cls = getattr(A, kind)
     alg = cls(name="a", **params)
     if kind.endswith("_MS"):
-        ms = MultiSetup_PreGER(fs=fs, ref_ind=data["ref_ind"], datasets=[np.array(d, dtype=float) for d in data["datasets"]])
+        given = [present(d) for d in data["datasets"]]
+        before = [g.copy() for g in given]
+        ms = MultiSetup_PreGER(fs=fs, ref_ind=data["ref_ind"], datasets=given)
         ms.add_algorithms(alg)
         ms.run_by_name("a")
     else:
-        ss = SingleSetup(np.array(data, dtype=float), fs=fs)
+        given = [present(data)]
+        before = [given[0].copy()]
+        ss = SingleSetup(given[0], fs=fs)
         ss.add_algorithms(alg)
         ss.run_by_name("a")
+    LAST_RUN["untouched"] = all(np.array_equal(g, b) for g, b in zip(given, before))
     return alg.result
 
 
-def class_case(ctx, kind, data, fs, params, exprs, meta, label, store_data=False, evaluate=True, shuffle=True):
+def apply_forms(kind, fs, params, forms):
+    """params / fs with every option value in the form the descriptor asks for (the judge keeps the plain values, by key)."""
+    ints, floats, bools = forms.get("ints", "int"), forms.get("floats", "float"), forms.get("bools", "bool")
+    out = dict(params)
+    for k in ("ordmin", "ordmax", "br", "nxseg", "nb"):
+        if k in out:
+            out[k] = as_int(out[k], ints)
+    if "calc_unc" in out:
+        out["calc_unc"] = as_bool(out["calc_unc"], bools)
+    out["sc"] = {k: as_float(v, floats) for k, v in params["sc"].items()}
+    out["hc"] = {k: (as_bool(v, bools) if k == "conj" else as_float(v, floats)) for k, v in params["hc"].items()}
+    return as_float(fs, floats), out
+
+
+def class_case(ctx, kind, data, fs, params, exprs, meta, label, store_data=False, evaluate=True, shuffle=True, forms=None):
     """Run one class, queue the model evaluation of its result tables; returns result.Lab (None when unusable).
-    The sc and hc dicts are handed to the class with their keys in a random order; the judge below uses its own copy by key."""
+    The sc and hc dicts are handed to the class with their keys in a random order, every option in a randomly chosen value form
+    (int / NumPy integer / 0-d array, float / np.float64 / 0-d array, bool / 0-1 / np.bool_), the record read-only and in float32
+    or (integer-valued) int32 / int64 storage in a share of the cases; the judge below uses its own plain copy by key."""
     if shuffle:
         params = dict(params, sc=shuffled(ctx.rng, params["sc"]), hc=shuffled(ctx.rng, params["hc"]))
         ctx.hist("sc-key-order", ",".join(k[4:] for k in params["sc"]))
+        if forms is None:
+            forms = pick_forms(ctx.rng)
+            forms["dtype"] = ctx.rng.choice(["float64"] * 6 + ["float32", "float32", "int64", "int32"])
+    forms = forms or pick_forms(None, plain=True)
+    if forms["dtype"] in ("int64", "int32"):  # integer-valued record (counts of 1/64), the same values in either storage type
+        scale = lambda d: np.round(np.asarray(d, dtype=float) * 64.0)  # noqa: E731
+        data = dict(data, datasets=[scale(d) for d in data["datasets"]]) if isinstance(data, dict) else scale(data)
+    for k, v in forms.items():
+        ctx.hist("class-form-" + k, v)
     is_p = kind.startswith("pLSCF")
     ordmin, ordmax = int(params.get("ordmin", 0)), int(params["ordmax"])
     sc = params["sc"]
     tols = (float(sc["err_fn"]), float(sc["err_xi"]), float(sc["err_phi"]))
     site = "%s.run" % kind
-    case = dict(kind="class", cls=kind, fs=fs, params=params, label=label)
+    case = dict(kind="class", cls=kind, fs=fs, params=params, label=label, forms=forms)
     if store_data:
         case["data"] = data
+    fs_run, params_run = apply_forms(kind, fs, params, forms)
+    dt = {"float64": float, "float32": np.float32, "int64": np.int64, "int32": np.int32}[forms["dtype"]]
     try:
-        r = run_class(kind, data, fs, params)
+        r = run_class(kind, data, fs_run, params_run, readonly=forms["readonly"], dtype=dt)
     except Exception as e:  # noqa: BLE001
         ctx.count(case)
-        ctx.fail("oracle", "%s raised %s: %s (no labels produced for ordmin=%d, ordmax=%d)" % (site, type(e).__name__, str(e)[:200], ordmin, ordmax),
-                 case, key="C10:%s:raised-%s" % (site, type(e).__name__))
+        ctx.fail("oracle", "%s raised %s: %s (no labels produced for ordmin=%d, ordmax=%d; input forms %s)"
+                 % (site, type(e).__name__, str(e)[:200], ordmin, ordmax, forms),
+                 dict(case, data=data), key="C10:%s:raised-%s" % (site, type(e).__name__))
         return
+    if not LAST_RUN["untouched"]:
+        ctx.fail("oracle", "%s modified the record it was given" % site, dict(case, data=data), key="C10:%s:mutates-input" % site)
+    if forms["dtype"] in ("int64", "int32"):
+        # the float64 image of the same integer-valued record must give the same tables and labels
+        try:
+            rf = run_class(kind, data, fs, params)
+            same = (np.array_equal(np.asarray(rf.Lab), np.asarray(r.Lab))
+                    and np.allclose(np.asarray(rf.Fn_poles, dtype=float), np.asarray(r.Fn_poles, dtype=float), rtol=1e-9, atol=0, equal_nan=True))
+        except Exception:  # noqa: BLE001
+            same = False
+        if not same:
+            ctx.fail("oracle", "%s: an integer-valued record stored as %s gives other pole tables / labels than its float64 image" % (site, forms["dtype"]),
+                     dict(case, data=data), key="C10:%s:storage-dtype" % site)
     Fn, Xi, Phi, Lab = np.asarray(r.Fn_poles, dtype=float), np.asarray(r.Xi_poles, dtype=float), np.asarray(r.Phi_poles), np.asarray(r.Lab)
     case.update(shape=list(Fn.shape), channels=int(Phi.shape[2]), n_stable=int(Lab.sum()))
     ctx.count(dict(case, fn=Fn.tolist()), nontrivial=bool(Lab.sum() > 0 and (Lab == 0).any()))
@@ -917,7 +1050,8 @@ def run(ctx):
         name = os.path.basename(path)
         ctx.hist("stream", "corpus")
         if c["kind"] == "class":
-            Lab = class_case(ctx, c["cls"], c["data"], c["fs"], c["params"], exprs, meta, "corpus:" + name, shuffle=False)
+            Lab = class_case(ctx, c["cls"], c["data"], c["fs"], c["params"], exprs, meta, "corpus:" + name, shuffle=False,
+                             forms=(dict(pick_forms(None, plain=True), **c["forms"]) if c.get("forms") else None))
             if Lab is not None and c.get("zero_tolerance_defaults") is not None:
                 # keep the case discriminating: with the zero tolerance replaced by the documented default some pole is stable
                 F, X, P = meta[-1][3], meta[-1][4], meta[-1][5]
@@ -958,11 +1092,15 @@ def run(ctx):
             Fn, Xi, Phi = tables_from_json(c)
             tols = (float(c["efn"]), float(c["exi"]), float(c["ephi"]))
             c0, c1 = int(c["c0"]), int(c["c1"])
-            Lab, err = call_sc(gen, Fn.copy(), Xi.copy(), Phi.copy(), c0, c1, tols)
-            case = case_json(Fn, Xi, Phi, c0=c0, c1=c1, efn=tols[0], exi=tols[1], ephi=tols[2], corpus=name)
+            forms = dict(pick_forms(None, plain=True), **(c.get("forms") or {}))
+            a0, a1, a2, narrow = present_tables(Fn, Xi, Phi, forms)
+            if forms["dtype"] == "float32" and not narrow:
+                ctx.note("corpus table %s is no longer exactly representable in float32" % name)
+            Lab, err = call_sc(gen, a0, a1, a2, c0, c1, tols, forms)
+            case = case_json(Fn, Xi, Phi, c0=c0, c1=c1, efn=tols[0], exi=tols[1], ephi=tols[2], corpus=name, forms=forms)
             ctx.count(case)
             if Lab is None:
-                ctx.fail("oracle", "gen.SC_apply raised %s on corpus table %s" % (err, name), case, key="C10:SC_apply:raised-%s" % err)
+                ctx.fail("oracle", "gen.SC_apply raised %s on corpus table %s (input forms: %s)" % (err, name, forms), case, key="C10:SC_apply:raised-%s" % err)
                 continue
             if c.get("expected") is not None and not np.array_equal(Lab, np.array(c["expected"])):
                 ctx.fail("oracle", "gen.SC_apply on corpus table %s: labels %s, expected %s" % (name, Lab.tolist(), c["expected"]), case,
@@ -990,9 +1128,15 @@ def run(ctx):
         for ft in sorted(feats):
             ctx.hist("feature", ft)
         ctx.sample(dict(shape=[R, C, Phi.shape[2]], c0=c0, c1=c1, efn=efn, exi=exi, ephi=ephi, features=sorted(feats), Fn_first_rows=Fn[:2].tolist()))
-        a0, a1, a2 = Fn.copy(), Xi.copy(), Phi.copy()
-        Lab, err = call_sc(gen, a0, a1, a2, c0, c1, tols)
-        if not (nan_equal(a0, Fn) and nan_equal(a1, Xi) and nan_equal(a2, Phi)):
+        forms = pick_forms(rng)
+        a0, a1, a2, narrow = present_tables(Fn, Xi, Phi, forms)
+        forms["dtype"] = "float32" if narrow else "float64"
+        case["forms"] = forms
+        for k_, v_ in forms.items():
+            ctx.hist("A-form-" + k_, v_)
+        b0, b1, b2 = a0.copy(), a1.copy(), a2.copy()
+        Lab, err = call_sc(gen, a0, a1, a2, c0, c1, tols, forms)
+        if not (nan_equal(a0, b0) and nan_equal(a1, b1) and nan_equal(a2, b2)):
             ctx.fail("oracle", "gen.SC_apply modified its input tables", case, key="C10:SC_apply:mutates-input")
         beyond = c0 <= c1 and c1 >= C
         if beyond:
@@ -1003,16 +1147,70 @@ def run(ctx):
             continue
         if Lab is None:
             ctx.count(case, nontrivial=False)
-            ctx.fail("oracle", "gen.SC_apply raised %s on a well-formed table and range" % err, case, key="C10:SC_apply:raised-%s" % err)
+            ctx.fail("oracle", "gen.SC_apply raised %s on a well-formed table and range (input forms: %s)" % (err, forms), case,
+                     key="C10:SC_apply:raised-%s" % err)
             continue
+        # the same call with writable float64 tables and plain Python int / float options
         Lab2, _ = call_sc(gen, Fn.copy(), Xi.copy(), Phi.copy(), c0, c1, tols)
-        if Lab2 is None or not np.array_equal(Lab, Lab2):
-            ctx.fail("oracle", "gen.SC_apply is not deterministic on equal inputs", case, key="C10:SC_apply:not-pure")
         inr = (lambda o, c0=c0, c1=c1: c0 <= o <= c1)
+        if narrow:
+            # float32 / complex64 storage computes in single precision: judged by the text on the float64 image with the margin
+            # of the narrower type; the model judges the float64 call below
+            expn, whyn = text_labels(Fn, Xi, Phi, inr, *tols, rel=REL_NARROW)
+            badn = np.argwhere((expn >= 0) & (Lab != expn)) if Lab.shape == expn.shape else np.zeros((1, 2), int)
+            if len(badn):
+                i_, o_ = [int(v) for v in badn[0]]
+                ctx.fail("oracle", "SC_apply on float32/complex64 tables: pole (row %d, column %d) labelled %s, the property says %d (%s)"
+                         % (i_, o_, Lab[i_, o_] if Lab.shape == expn.shape else "?", expn[i_, o_], whyn[(i_, o_)]),
+                         dict(case, cell=[i_, o_]), key="C10:SC_apply:storage-dtype")
+            if Lab2 is None:
+                ctx.fail("oracle", "gen.SC_apply raised on the float64 image of a table it accepts as float32", case, key="C10:SC_apply:storage-dtype")
+                continue
+            Lab = Lab2
+        elif Lab2 is None or not np.array_equal(Lab, Lab2):
+            ctx.fail("oracle", "gen.SC_apply gives other labels for the same inputs handed over as %s than as writable arrays with Python int/float options"
+                     % forms, case, key="C10:SC_apply:input-form")
         exp, _ = text_labels(Fn, Xi, Phi, inr, *tols)
         ctx.count(case, nontrivial=bool((exp == 1).any() and (exp[:, max(c0, 1):c1 + 1] == 0).any()))
         exprs.append("run_sc %s %s %s %d%%nat %d%%nat %s %s %s" % (tab_q(Fn), tab_q(Xi), tab_phi(Phi), c0, c1, qq(efn), qq(exi), qq(ephi)))
         meta.append(("sc", "SC_apply", Lab, Fn, Xi, Phi, inr, tols, case, True))
+
+    # ---------------- stream A-int: NaN-free integer-valued frequency / shape tables stored as int32 / int64 (signed: the
+    # pristine subtraction wraps around for unsigned storage) against their float64 image; NumPy text only
+    for k in range(ctx.n(16, 80)):
+        R, C, L = rng.randint(2, 5), rng.randint(2, 6), rng.randint(1, 3)
+        base = [rng.randint(2, 40) for _ in range(R)]
+        Fi = np.array([[b + rng.choice([0, 0, 1, -1, 2, 5]) for _ in range(C)] for b in base])
+        Xf = np.array([[1 / 32.0 + rng.choice([0, 1, -1, 8]) / 1024.0 for _ in range(C)] for _ in range(R)])
+        shp = [[rng.randint(-4, 4) for _ in range(L)] for _ in range(R)]
+        Pi = np.array([[[v * rng.choice([1, 1, -1, 2]) + rng.choice([0, 0, 0, 1]) for v in shp[i]] for _ in range(C)] for i in range(R)])
+        Pi[(Pi == 0).all(axis=2)] = 1
+        tols = (rng.choice([0.04, 0.06, 0.11, 0.3]), rng.choice([0.1, 0.3]), rng.choice([0.05, 0.2]))
+        idt = rng.choice([np.int64, np.int32])
+        forms = dict(pick_forms(rng), dtype=np.dtype(idt).name)
+        xdt = np.float32 if (rng.random() < 0.3 and exact_in(Xf, np.float32)) else float
+        c0, c1 = rng.randint(0, 1), C - 1
+        F64, P64 = Fi.astype(float), Pi.astype(float)
+        case = case_json(F64, Xf, P64, c0=c0, c1=c1, efn=tols[0], exi=tols[1], ephi=tols[2], forms=forms, xi_dtype=np.dtype(xdt).name, kind="sc_apply_int")
+        ctx.hist("stream", "A-int")
+        a0, a1, a2 = Fi.astype(idt), Xf.astype(xdt), Pi.astype(idt)
+        if forms["readonly"]:
+            for a in (a0, a1, a2):
+                a.setflags(write=False)
+        Lab, err = call_sc(gen, a0, a1, a2, c0, c1, tols, forms)
+        inr = (lambda o, c0=c0, c1=c1: c0 <= o <= c1)
+        exp, why = text_labels(F64, Xf, P64, inr, *tols, rel=(REL_NARROW if xdt is np.float32 else REL))
+        ctx.count(case, nontrivial=bool((exp == 1).any() and (exp[:, 1:] == 0).any()))
+        if Lab is None:
+            ctx.fail("oracle", "gen.SC_apply raised %s on integer-valued tables stored as %s (input forms %s)" % (err, forms["dtype"], forms), case,
+                     key="C10:SC_apply:raised-%s" % err)
+            continue
+        bad = np.argwhere((exp >= 0) & (Lab != exp)) if Lab.shape == exp.shape else np.zeros((1, 2), int)
+        if len(bad):
+            i_, o_ = [int(v) for v in bad[0]]
+            ctx.fail("oracle", "SC_apply on integer-valued tables stored as %s: pole (row %d, column %d) labelled %s, the property says %d (%s)"
+                     % (forms["dtype"], i_, o_, Lab[i_, o_] if Lab.shape == exp.shape else "?", exp[i_, o_], why[(i_, o_)]),
+                     dict(case, cell=[i_, o_]), key="C10:SC_apply:storage-dtype")
 
     # ---------------- stream A-tall: tables of 1023 ... 3000 rows (function level, NumPy text only)
     for k, R in enumerate(TALL_ROWS * ctx.n(1, 3)):
